@@ -104,6 +104,9 @@ def work(tasks, idx):
             continue
         req, r = b
         e = _reg.expectation(req, r.roots, require_uv=bool(flags & core.UV))
+        if variant % 4 == 2:
+            # the RP's allow-list also names identifiers the library has no member for (ES384, ES256K)
+            e["algs"] = [-47] + list(cases.ALL_ALGS) + [-35]
         c = r.credential
         code = cases.run_reg(c, e)
         res.evaluations += 1
